@@ -431,9 +431,10 @@ func (c *Call) updateLocations(goroot, localgoroot string, localgomods, gopaths 
 			return true
 		}
 	}
-	// Check GOPATH.
-	// TODO(maruel): Sort for deterministic behavior?
-	for prefix, dest := range gopaths {
+	// Check GOPATH. The most specific root wins, independently of the map
+	// iteration order.
+	for _, prefix := range longestFirst(gopaths) {
+		dest := gopaths[prefix]
 		if p := prefix + "/src/"; strings.HasPrefix(c.RemoteSrcPath, p) {
 			c.RelSrcPath = c.RemoteSrcPath[len(p):]
 			c.LocalSrcPath = pathJoin(dest, "src", c.RelSrcPath)
@@ -461,7 +462,8 @@ func (c *Call) updateLocations(goroot, localgoroot string, localgomods, gopaths 
 	// Check Go modules.
 	// Go module path detection only works with stack traces created on the local
 	// file system.
-	for prefix, pkg := range localgomods {
+	for _, prefix := range longestFirst(localgomods) {
+		pkg := localgomods[prefix]
 		if strings.HasPrefix(c.RemoteSrcPath, prefix+"/") {
 			c.RelSrcPath = c.RemoteSrcPath[len(prefix)+1:]
 			c.LocalSrcPath = c.RemoteSrcPath
@@ -862,6 +864,26 @@ func nameArguments(goroutines []*Goroutine) {
 		}
 		nextID++
 	}
+}
+
+// longestFirst returns the keys of m, longest first, so that the most
+// specific prefix is tried first and the result does not depend on the map
+// iteration order.
+func longestFirst(m map[string]string) []string {
+	if len(m) == 0 {
+		return nil
+	}
+	out := make([]string, 0, len(m))
+	for k := range m {
+		out = append(out, k)
+	}
+	sort.Slice(out, func(i, j int) bool {
+		if len(out[i]) != len(out[j]) {
+			return len(out[i]) > len(out[j])
+		}
+		return out[i] < out[j]
+	})
+	return out
 }
 
 func pathJoin(s ...string) string {
